@@ -106,6 +106,40 @@ def build(cpp: str, workdir: Path, *, coverage: bool = True, timeout: int = 120)
     return {"ok": True, "binary": binary, "profile": profile, "diag": diag}
 
 
+def build_plain(cpp: str, workdir: Path, timeout: int = 120) -> dict:
+    """Unsanitized g++ build (for valgrind memcheck: uninitialised reads, which ASan does not see)."""
+    workdir.mkdir(parents=True, exist_ok=True)
+    src = workdir / "sketch.cpp"
+    src.write_text(cpp)
+    binary = workdir / "fw_plain"
+    cmd = [GXX, "-std=gnu++11", "-fpermissive", "-O0", "-g", "-nostdinc++", "-w"] + include_flags(cpp) + ["-c", str(src), "-o", str(workdir / "sketch_plain.o")]
+    p = subprocess.run(cmd, capture_output=True, text=True, timeout=timeout)
+    if p.returncode != 0:
+        return {"ok": False, "diag": p.stderr}
+    p2 = subprocess.run([GXX, str(workdir / "sketch_plain.o"), str(runtime_object("plain")), "-o", str(binary)], capture_output=True, text=True, timeout=timeout)
+    if p2.returncode != 0:
+        return {"ok": False, "diag": p2.stderr}
+    return {"ok": True, "binary": binary}
+
+
+def run_valgrind(binary: Path, workdir: Path, *, passes: int = 3, tapes: dict | None = None, wall_timeout: int = 120) -> dict:
+    """memcheck run; returns dict(status, errors=[kinds])"""
+    log = workdir / "events_vg.log"
+    tp = workdir / "tapes_vg.txt"
+    write_tapes(tp, tapes)
+    vlog = workdir / "valgrind.log"
+    env = dict(os.environ)
+    env.update({"REDU_LOG": str(log), "REDU_TAPES": str(tp), "REDU_PASSES": str(passes), "REDU_BUDGET": "50000000"})
+    cmd = ["valgrind", "--tool=memcheck", "-q", "--error-exitcode=9", "--track-origins=yes", "--leak-check=no", f"--log-file={vlog}", str(binary)]
+    try:
+        p = subprocess.run(cmd, env=env, capture_output=True, text=True, timeout=wall_timeout, cwd=str(workdir))
+    except subprocess.TimeoutExpired:
+        return {"status": "watchdog", "errors": []}
+    txt = vlog.read_text(errors="replace") if vlog.exists() else ""
+    kinds = sorted(set(re.findall(r"==\d+== (Conditional jump or move depends on uninitialised value|Use of uninitialised value of size \d+|Invalid read of size \d+|Invalid write of size \d+|Invalid free|Mismatched free|Syscall param [^\n]*uninitialised)", txt)))
+    return {"status": "ok" if p.returncode == 0 else f"exit{p.returncode}", "errors": kinds, "log": txt[-1500:]}
+
+
 def _limits():
     resource.setrlimit(resource.RLIMIT_CPU, (8, 10))
     resource.setrlimit(resource.RLIMIT_CORE, (0, 0))
